@@ -14,6 +14,88 @@ scanner / parser correspondence of C11, which exhibits the character or spelling
 namespace Marwood.Proofs.Tables
 open Marwood Marwood.Gen
 
+/-! ### scanner character classes
+
+The translator EVALUATES each Rust predicate on every Latin-1 code point and on a sample above U+00FF and emits a
+canonical table (sorted code points + one Boolean for everything above 0xFF), so a rewrite of the predicates that
+keeps their meaning regenerates the same file. The agreement proofs below are generic in the table's content:
+`decide` over the 256 Latin-1 code points, a bound on the table entries, and one fixed lemma per model predicate
+for the code points above 0xFF. -/
+
+private theorem char_eq_ofNat (c : Char) : c = Char.ofNat c.toNat := by
+  simp [Char.ofNat_toNat]
+
+private theorem contains_false_of_bound {l : List Nat} (hb : l.all (· ≤ 255) = true) {n : Nat} (hn : 255 < n) :
+    l.contains n = false := by
+  rw [Bool.eq_false_iff]
+  intro h
+  have hm : n ∈ l := by simpa using h
+  have := (List.all_eq_true.mp hb) n hm
+  simp at this
+  omega
+
+private theorem ne_of_toNat_gt {c d : Char} (h : 255 < c.toNat) (hd : d.toNat ≤ 255) : (c == d) = false := by
+  rw [beq_eq_false_iff_ne]
+  intro e
+  subst e
+  omega
+
+private theorem digit_high {c : Char} (h : 255 < c.toNat) : isAsciiDigit c = false := by
+  simp [isAsciiDigit]; omega
+
+private theorem hex_high {c : Char} (h : 255 < c.toNat) : isAsciiHex c = false := by
+  simp [isAsciiHex, isAsciiDigit]; omega
+
+private theorem special_high {c : Char} (h : 255 < c.toNat) : isSpecialSubsequent c = false := by
+  simp [isSpecialSubsequent, ne_of_toNat_gt h (by decide : ('+' : Char).toNat ≤ 255),
+    ne_of_toNat_gt h (by decide : ('-' : Char).toNat ≤ 255), ne_of_toNat_gt h (by decide : ('.' : Char).toNat ≤ 255),
+    ne_of_toNat_gt h (by decide : ('@' : Char).toNat ≤ 255), ne_of_toNat_gt h (by decide : (';' : Char).toNat ≤ 255)]
+
+private theorem agree_template (gen model : Char → Bool) (table : List Nat) (high mhigh : Bool)
+    (hgen : ∀ c, gen c = ((decide (c.toNat > 0xFF) && high) || table.contains c.toNat))
+    (hb : table.all (· ≤ 255) = true)
+    (hlow : ∀ n : Fin 256, gen (Char.ofNat n.val) = model (Char.ofNat n.val))
+    (hhigh : ∀ c : Char, 255 < c.toNat → model c = mhigh) (hh : high = mhigh) (c : Char) : gen c = model c := by
+  by_cases h : c.toNat ≤ 255
+  · have := hlow ⟨c.toNat, by omega⟩
+    rw [← char_eq_ofNat c] at this
+    exact this
+  · have h' : 255 < c.toNat := by omega
+    rw [hgen c, hhigh c h', contains_false_of_bound hb h', ← hh]
+    simp [h']
+
+theorem isInitialNumber_agree (c : Char) : Tables.isInitialNumber c = Marwood.isInitialNumber c :=
+  agree_template _ _ Tables.isInitialNumberTable Tables.isInitialNumberHigh false (fun _ => rfl) (by decide) (by decide +kernel)
+    (fun c h => by
+      simp [Marwood.isInitialNumber, digit_high h, ne_of_toNat_gt h (by decide : ('+' : Char).toNat ≤ 255),
+        ne_of_toNat_gt h (by decide : ('-' : Char).toNat ≤ 255)]) (by decide) c
+
+theorem isSubsequentNumber_agree (c : Char) : Tables.isSubsequentNumber c = Marwood.isSubsequentNumber c :=
+  agree_template _ _ Tables.isSubsequentNumberTable Tables.isSubsequentNumberHigh false (fun _ => rfl) (by decide)
+    (by decide +kernel)
+    (fun c h => by
+      simp [Marwood.isSubsequentNumber, digit_high h, hex_high h, ne_of_toNat_gt h (by decide : ('.' : Char).toNat ≤ 255),
+        ne_of_toNat_gt h (by decide : ('/' : Char).toNat ≤ 255)]) (by decide) c
+
+theorem isInitialIdentifier_agree (c : Char) : Tables.isInitialIdentifier c = Marwood.isInitialIdentifier c :=
+  agree_template _ _ Tables.isInitialIdentifierTable Tables.isInitialIdentifierHigh true (fun _ => rfl) (by decide)
+    (by decide +kernel)
+    (fun c h => by
+      have : decide (c.toNat > 0xFF) = true := by simp; omega
+      simp [Marwood.isInitialIdentifier, this]) (by decide) c
+
+theorem isSpecialSubsequent_agree (c : Char) : Tables.isSpecialSubsequent c = Marwood.isSpecialSubsequent c :=
+  agree_template _ _ Tables.isSpecialSubsequentTable Tables.isSpecialSubsequentHigh false (fun _ => rfl) (by decide)
+    (by decide +kernel) (fun c h => special_high h) (by decide) c
+
+theorem isSubsequentIdentifier_agree (c : Char) :
+    Tables.isSubsequentIdentifier c = Marwood.isSubsequentIdentifier c :=
+  agree_template _ _ Tables.isSubsequentIdentifierTable Tables.isSubsequentIdentifierHigh true (fun _ => rfl) (by decide)
+    (by decide +kernel)
+    (fun c h => by
+      have : decide (c.toNat > 0xFF) = true := by simp; omega
+      simp [Marwood.isSubsequentIdentifier, Marwood.isInitialIdentifier, this]) (by decide) c
+
 /-- the five scanner character classes, for every character -/
 theorem char_classes_agree (c : Char) :
     Tables.isInitialNumber c = Marwood.isInitialNumber c ∧
@@ -21,7 +103,8 @@ theorem char_classes_agree (c : Char) :
     Tables.isInitialIdentifier c = Marwood.isInitialIdentifier c ∧
     Tables.isSpecialSubsequent c = Marwood.isSpecialSubsequent c ∧
     Tables.isSubsequentIdentifier c = Marwood.isSubsequentIdentifier c :=
-  ⟨rfl, rfl, rfl, rfl, rfl⟩
+  ⟨isInitialNumber_agree c, isSubsequentNumber_agree c, isInitialIdentifier_agree c, isSpecialSubsequent_agree c,
+    isSubsequentIdentifier_agree c⟩
 
 /-- every entry of `named_to_char` is in the model's table, with the same code point … -/
 theorem named_chars_sound :
